@@ -270,3 +270,17 @@ package ocidir
 //@   in ~/scheme/ocidir
 //@   requires temp-file-of-this-call: $tmpFile != nil && $fileWriteDst == $tmpFile && $fileClosed == $tmpFile
 //@   requires written-and-closed-without-error: $fileWriteOK && $fileCloseOK
+
+// ---- C06: a tag resolves to the entry that carries exactly that name ----
+// Layouts written by other tools may hold full image names ("registry/repo:tag") in
+// org.opencontainers.image.ref.name; indexGet accepts such an entry for a tag only as a fall-back:
+// it is returned only when NO entry of the index is named exactly by the tag (indexSet replaces and
+// appends entries by exact name, so anything else would make a pushed tag resolve to a foreign entry).
+//@ func indexGet(index, r) (ret, err)
+//@   prop C06
+//@   loop 1 ()
+//@     invariant no-exact-name-so-far: -1 <= $idx__2 && $idx__2 < len(index.Manifests) && forall(k, 0, $idx__2 + 1, !($has(index.Manifests[k].Annotations, aOCIRefName) && index.Manifests[k].Annotations[aOCIRefName] == r.Tag))
+//@   loop 2 ()
+//@     invariant no-exact-name-at-all: forall(k, 0, len(index.Manifests), !($has(index.Manifests[k].Annotations, aOCIRefName) && index.Manifests[k].Annotations[aOCIRefName] == r.Tag))
+//@   ensures exact-name-wins: err == nil && old(r).Digest == "" && old(r).Tag != "" ==> ($has(ret.Annotations, aOCIRefName) && ret.Annotations[aOCIRefName] == old(r).Tag) || forall(k, 0, len(index.Manifests), !($has(index.Manifests[k].Annotations, aOCIRefName) && index.Manifests[k].Annotations[aOCIRefName] == old(r).Tag))
+//@   ensures by-digest-returns-that-digest: err == nil && old(r).Digest != "" ==> string(ret.Digest) == old(r).Digest
